@@ -102,15 +102,17 @@ static inline bool get_str(const unsigned char *p, size_t n, size_t &off, std::s
     return true;
 }
 
-// Strict decoder of one message occupying exactly n bytes.
-static inline Decoded decode(const unsigned char *p, size_t n)
+// Decoder of one message occupying exactly n bytes.  strict: padding bytes must
+// be NUL and unknown tags are an error; lenient: padding content is ignored and
+// unknown tags are taken to carry no payload (known_tags=false is reported).
+static inline Decoded decode(const unsigned char *p, size_t n, bool strict = true)
 {
     Decoded d;
     size_t off = 0;
     if(n % 4) { d.why = "length not multiple of 4"; return d; }
-    if(!get_str(p, n, off, d.addr)) { d.why = "bad address"; return d; }
+    if(!get_str(p, n, off, d.addr, strict)) { d.why = "bad address"; return d; }
     std::string tt;
-    if(!get_str(p, n, off, tt)) { d.why = "bad type tag string"; return d; }
+    if(!get_str(p, n, off, tt, strict)) { d.why = "bad type tag string"; return d; }
     if(tt.empty() || tt[0] != ',') { d.why = "no comma"; return d; }
     d.types = tt.substr(1);
     for(char t : d.types) {
@@ -129,7 +131,7 @@ static inline Decoded decode(const unsigned char *p, size_t n)
                 if(off + 4 > n) { d.why = "truncated midi"; return d; }
                 memcpy(v.m, p + off, 4); off += 4; break;
             case 's': case 'S':
-                if(!get_str(p, n, off, v.s)) { d.why = "bad string arg"; return d; }
+                if(!get_str(p, n, off, v.s, strict)) { d.why = "bad string arg"; return d; }
                 break;
             case 'b': {
                 if(off + 4 > n) { d.why = "truncated blob len"; return d; }
@@ -144,7 +146,7 @@ static inline Decoded decode(const unsigned char *p, size_t n)
                 break;
             }
             case 'T': case 'F': case 'N': case 'I': break;
-            default: d.known_tags = false; d.why = "unknown tag"; return d;
+            default: d.known_tags = false; if(strict) { d.why = "unknown tag"; return d; } break;
         }
         d.vals.push_back(v);
     }
